@@ -76,6 +76,64 @@ def run_op(I, ch, op, amt, amt_b, lp_amt):
     raise ValueError(op)
 
 
+def _op_json(op, m):
+    half = '0.5'
+    A, B, L = m['amount'], m['amount_b'], m['lp_amount']
+    if op == 'swap_p1':
+        return {'swap': {'ask_asset_denom': 'uB', 'max_slippage': half, 'pool_identifier': 'p1'}}, [('uA', A)]
+    if op == 'swap_p2':
+        return {'swap': {'ask_asset_denom': 'uC', 'max_slippage': half, 'pool_identifier': 'p2'}}, [('uB', A)]
+    if op == 'route_p1_p2':
+        return {'execute_swap_operations': {'operations': [{'mantra_swap': {'token_in_denom': 'uA', 'token_out_denom': 'uB', 'pool_identifier': 'p1'}},
+                                                           {'mantra_swap': {'token_in_denom': 'uB', 'token_out_denom': 'uC', 'pool_identifier': 'p2'}}],
+                                            'max_slippage': half}}, [('uA', A)]
+    if op == 'route_p2_p1':
+        return {'execute_swap_operations': {'operations': [{'mantra_swap': {'token_in_denom': 'uC', 'token_out_denom': 'uB', 'pool_identifier': 'p2'}},
+                                                           {'mantra_swap': {'token_in_denom': 'uB', 'token_out_denom': 'uA', 'pool_identifier': 'p1'}}],
+                                            'max_slippage': half}}, [('uC', A)]
+    if op == 'provide_p1':
+        return {'provide_liquidity': {'pool_identifier': 'p1'}}, [('uA', A), ('uB', B)]
+    if op == 'provide_p2':
+        return {'provide_liquidity': {'pool_identifier': 'p2'}}, [('uB', A), ('uC', B)]
+    if op == 'single_sided_p1':
+        return {'provide_liquidity': {'pool_identifier': 'p1', 'swap_max_slippage': half}}, [('uA', A)]
+    if op == 'withdraw_p1':
+        return {'withdraw_liquidity': {'pool_identifier': 'p1'}}, [(LPD['p1'], L)]
+    return {'withdraw_liquidity': {'pool_identifier': 'p2'}}, [(LPD['p2'], L)]
+
+
+def _replay_switch(op):
+    from .c02 import _mints
+
+    def build(m):
+        fees = (10 ** 15, 2 * 10 ** 15, 0, [])
+        st1 = (m['swaps_enabled'], m['deposits_enabled'], m['withdrawals_enabled'])
+        steps = [{'op': 'set_pool', 'pool': pool_json('p1', ['uA', 'uB'], [6, 6], [m['x1'], m['y1']], 'constant_product', fees, status=st1)},
+                 {'op': 'set_pool', 'pool': pool_json('p2', ['uB', 'uC'], [6, 6], [m['x2'], m['y2']], 'constant_product', fees)}]
+        tot = m['amount'] + m['amount_b']
+        steps += _mints([('pool_manager', [('uA', m['x1']), ('uB', m['y1'] + m['x2']), ('uC', m['y2']), (LPD['p1'], MINLIQ), (LPD['p2'], MINLIQ)]),
+                         ('user', [('uA', tot), ('uB', tot), ('uC', tot), (LPD['p1'], m['S1'] - MINLIQ), (LPD['p2'], m['S2'] - MINLIQ)])])
+        msg, funds = _op_json(op, m)
+        steps.append({'op': 'execute', 'contract': 'pool_manager', 'sender': 'user', 'funds': [coin_j(d, a) for d, a in sorted(funds)], 'msg': msg})
+        return {'setup': {}, 'steps': steps}, len(steps) - 1
+    return generic_replay(build)
+
+
+def _replay_switch_status_only(op):
+    """for the abstracted (route) obligations only the accept/reject outcome is meaningful natively: used for
+    the `switched off => rejected` check alone"""
+    inner = _replay_switch(op)
+
+    def rb(label, m):
+        if label != 'switched_off_operation_rejected':
+            return None
+        m2 = dict(m)
+        m2.update(HINT)      # realistic amounts: the uninterpreted pricing results of the model are not realisable natively
+        m2['_obs'] = {'status': m.get('_obs', {}).get('status')}
+        return inner(label, m2)
+    return rb
+
+
 NEEDS = {'swap_p1': 'sw', 'route_p1_p2': 'sw', 'route_p2_p1': 'sw', 'provide_p1': 'dep', 'single_sided_p1': 'both', 'withdraw_p1': 'wd'}
 
 
@@ -91,6 +149,10 @@ def _ob_switch(op):
         ch = Chain(I, CONTRACTS)
         start = ch.snapshot()
         st, _ = run_op(I, ch, op, amt, amt_b, lp_amt)
+        I.observe('status', 'ok' if st == 'ok' else 'err')
+        observe_pool(I, 'p1')
+        observe_pool(I, 'p2')
+        observe_bank(I, bank_of(I), [('user', 'uA'), ('user', 'uB'), ('user', 'uC'), (PM, 'uA'), (PM, 'uB'), (PM, 'uC')])
         need = NEEDS.get(op)
         off = {'sw': not sw, 'dep': not dep, 'wd': not wd, 'both': (not sw) or (not dep), None: False}[need]
         if off:
@@ -124,11 +186,13 @@ for _op in OPS:
                          'internal swap of a single-asset deposit); otherwise outcome, balances and reserves equal the run with every switch on' % _op,
                bounds='two funded constant-product pools sharing a denom; all 8 switch combinations of p1; amounts symbolic',
                covers=(['switched_off', 'not_switched_off'] if _op in NEEDS else ['not_switched_off']),
-               abstractions=[ABSTRACT_PRICING_NOTE], opts={'abstract': ABSTRACT_PRICING})(_ob_switch(_op))
+               abstractions=[ABSTRACT_PRICING_NOTE] if _op.startswith('route') else [],
+               opts={'abstract': ABSTRACT_PRICING} if _op.startswith('route') else {},
+               replay=_replay_switch_status_only(_op) if _op.startswith('route') else _replay_switch(_op))(_ob_switch(_op))
 
 
 @obligation('C17', 'S2.toggle_writes_only_the_named_pool', entries=['execute', 'update_config', 'assert_owner'], kind='S',
-            statement='UpdateConfig{feature_toggle} by the owner changes only the named pool\\'s status to the requested values; other pools, reserves and config are untouched; '
+            statement='UpdateConfig{feature_toggle} by the owner changes only the status of the named pool to the requested values; other pools, reserves and config are untouched; '
                       'a non-owner or an unknown pool is rejected',
             bounds='two pools, each switch None/Some(true)/Some(false), sender owner or stranger', covers=['ok', 'rejected'])
 def s2(I):
